@@ -5,6 +5,7 @@ package pure
 
 import (
 	"fmt"
+	"os"
 	"runtime/debug"
 	"sort"
 	"strings"
@@ -134,7 +135,14 @@ func Run(s Spec, deadline time.Time) mc.Result {
 				defer func() {
 					if r := recover(); r != nil {
 						// A panic inside the code under test is a finding, not a tool error.
-						c.Violate("panic", fmt.Sprintf("the code under test panicked: %v\n%s", r, trimStack(debug.Stack())))
+						stack := debug.Stack()
+						if trimStack(stack) == "" {
+							// no frame of furiko on the stack: the harness itself is broken, that is no verdict
+							os.Stderr.Write(stack)
+							fmt.Fprintf(os.Stderr, "harness panic: %v\n", r)
+							os.Exit(3)
+						}
+						c.Violate("panic", fmt.Sprintf("the code under test panicked: %v\n%s", r, trimStack(stack)))
 						res.Exhaustive = false
 						res.CapHit = "panic"
 					}
@@ -149,6 +157,9 @@ func Run(s Spec, deadline time.Time) mc.Result {
 }
 
 func trimStack(b []byte) string {
+	if os.Getenv("VERIF_DEBUG_STACK") != "" {
+		os.Stderr.Write(b)
+	}
 	lines := strings.Split(string(b), "\n")
 	var keep []string
 	for _, l := range lines {
